@@ -286,6 +286,9 @@ def custom_pg_dialect():
 def build_tree(name):
     """Trees that cannot be obtained from parse_sql (callers of the renderer build them directly): op field 'ast'."""
     from mindsdb_sql.parser import ast as A
+    if name.startswith('insert_plainq_'):
+        odd = ['growth%', 'a b', '%s', '%(x)s', ':p', 'q?', '$1', '{x}', "it's", 'x\\y', 'Üñí', 'a"b', '100%%', 'sel-ect'][int(name.rsplit('_', 1)[1])]
+        return A.Insert(table=A.Identifier(parts=['tbl_a']), columns=[odd, 'b'], values=[[1, odd], [2, 'plain']], is_plain=True)
     if name.startswith('insert_plain'):
         rows = {'insert_plain_1': [[1, 'a']], 'insert_plain_2': [[1, 'a'], [2, 'b']], 'insert_plain_3': [[1.5, None], [True, 'x y'], [3, "it's"]]}[name]
         return A.Insert(table=A.Identifier('tbl_a'), columns=['a', 'b'], values=[list(r) for r in rows], is_plain=True)
